@@ -59,6 +59,20 @@ type run struct {
 	ids     map[uint64]int // request id -> small sequence number used in the trace
 	old     *world         // pivot runs: the state of the first pivot (values of either state may be written)
 	pivot   bool           // pivot run: no per-item events (two worlds), value checks only
+	allowed []*world       // snap/2 pivot runs: the states of all blocks between the pivots
+}
+
+// either reports whether pred holds in the target or any other admissible state.
+func (x *run) either(pred func(w *world) bool) bool {
+	if pred(x.w) || (x.old != nil && pred(x.old)) {
+		return true
+	}
+	for _, w := range x.allowed {
+		if pred(w) {
+			return true
+		}
+	}
+	return false
 }
 
 // sid maps the syncer's random 64-bit request ids to small integers (caller holds mu).
@@ -134,9 +148,21 @@ func (x *run) observe(k, v []byte) {
 		h := common.BytesToHash(k[1:])
 		a, ok := w.byHash[h]
 		good := ok && bytes.Equal(v, a.slim)
-		if !good && x.old != nil {
-			if o, ok := x.old.byHash[h]; ok && bytes.Equal(v, o.slim) {
-				good = true
+		if !good {
+			good = x.either(func(o *world) bool { a, ok := o.byHash[h]; return ok && bytes.Equal(v, a.slim) })
+		}
+		if !good && x.allowed != nil {
+			// snap/2 catch-up rolls accounts forward from access lists and leaves the storage root
+			// stale until the trie generation (bal_apply.go): compare nonce, balance and code hash
+			if got, err := types.FullAccount(v); err == nil {
+				good = x.either(func(o *world) bool {
+					a, ok := o.byHash[h]
+					if !ok {
+						return false
+					}
+					want, err := types.FullAccount(a.slim)
+					return err == nil && want.Nonce == got.Nonce && want.Balance.Eq(got.Balance) && bytes.Equal(want.CodeHash, got.CodeHash)
+				})
 			}
 		}
 		x.emit(tl.M{"op": "write", "item": []any{"acc", x.rankOf[h]}, "ok": good})
@@ -153,10 +179,8 @@ func (x *run) observe(k, v []byte) {
 				rk = p
 			}
 		}
-		if !good && x.old != nil {
-			if o, ok := x.old.byHash[ah]; ok && bytes.Equal(v, o.slotVal[sh]) && len(v) > 0 {
-				good = true
-			}
+		if !good && len(v) > 0 {
+			good = x.either(func(o *world) bool { a, ok := o.byHash[ah]; return ok && bytes.Equal(v, a.slotVal[sh]) })
 		}
 		x.emit(tl.M{"op": "write", "item": []any{fmt.Sprintf("s%d", x.rankOf[ah]), rk}, "ok": good})
 		if !good {
@@ -165,8 +189,8 @@ func (x *run) observe(k, v []byte) {
 	case len(k) == 33 && k[0] == rawdb.CodePrefix[0]:
 		h := common.BytesToHash(k[1:])
 		_, ok := w.codes[h]
-		if !ok && x.old != nil {
-			_, ok = x.old.codes[h]
+		if !ok {
+			ok = x.either(func(o *world) bool { _, has := o.codes[h]; return has })
 		}
 		good := ok && crypto.Keccak256Hash(v) == h
 		x.emit(tl.M{"op": "write", "item": []any{"code", x.codeIdx[h]}, "ok": good})
@@ -510,7 +534,7 @@ func (p *hpeer) RequestTrieNodes(id uint64, root common.Hash, count int, paths [
 }
 
 func (p *hpeer) RequestAccessLists(id uint64, hashes []common.Hash, bytes int) error {
-	go p.remote.OnAccessLists(p, id, rlp.RawList[rlp.RawValue]{})
+	p.serveAccessLists(id, hashes, bytes)
 	return nil
 }
 
@@ -748,6 +772,7 @@ func main() {
 	ttl := flag.Duration("ttl", 3*time.Second, "request timeout ceiling")
 	versions := flag.String("versions", "1", "syncer versions to use, e.g. 1 or 12")
 	npivot := flag.Int("pivot", 0, "number of additional snap/1 runs with a pivot move")
+	npivot2 := flag.Int("pivot2", 0, "number of additional snap/2 runs with a pivot move (BAL catch-up)")
 	flag.Parse()
 	seed := int64(tl.EnvInt("VERIF_SEED", 1))
 	sum := tl.NewSummary("c47", *mode, seed)
@@ -785,6 +810,18 @@ func main() {
 		pivotRun(x, early, late, []string{rawdb.HashScheme, rawdb.PathScheme}[r.Intn(2)], seed*1000+500+int64(i))
 		x.wg.Wait()
 		late.chain.Stop()
+		sum.Traces++
+		sum.Evaluations++
+		sum.Distinct++
+		sum.Sample(x.desc)
+	}
+	for i := 0; i < *npivot2; i++ {
+		pw := buildPivot2World(seed*1000+700+int64(i), 6+r.Intn(14), 4+r.Intn(16))
+		x := &run{tr: tr, sum: sum, r: tl.Rand(seed*15485863 + int64(i)), ttl: *ttl}
+		x.keys, x.rankOf, x.codeIdx = nil, map[common.Hash]int{}, map[common.Hash]int{}
+		pivot2Run(x, pw, []string{rawdb.HashScheme, rawdb.PathScheme}[r.Intn(2)], seed*1000+700+int64(i))
+		x.wg.Wait()
+		pw.chain.Stop()
 		sum.Traces++
 		sum.Evaluations++
 		sum.Distinct++
